@@ -397,6 +397,30 @@ def gather_inputs(ctx, pid, n_gen, decorated_share=0.6, density=(0.05, 0.4), lin
     dims["scale_inputs_with_a_line_of_64KiB_or_more"] = sum(
         1 for _, t in srows if max(len(x) for x in t.split("\n")) >= 65536 or any(
             len(m) >= 65536 for m in re.findall(r'\{"[^"]*"\}', t)))
+    # ---- shapes: every chain / list shape (if + k else-if +- else in every spelling, switch with 1..3 cases +- default,
+    # sub with 0..2 statements, declarations with 0..3 properties, files of 1..3 declarations) x one comment at
+    # every placeholder of the shape (block / line style, own line / line of the previous token): exhaustive
+    from gen import fmt_shapes
+    shp = fmt_shapes.shapes()
+    stoks = lex_many([t.encode() for _, t in shp], pos=True)
+    n_shape = n_shape_bad = 0
+    for (lab, text), tk in zip(shp, stoks):
+        items.append({"label": "shape:" + lab, "src": text.encode(), "origin": "shape"})
+        if tk is None:
+            n_shape_bad += 1
+            continue
+        for name, kind, variant, ptext, twin in decorate.comment_at_every_slot(rng, text, tk):
+            it = {"label": "shape:%s:%s:%s" % (lab, name, variant), "src": ptext.encode(), "origin": "shape", "slot": name}
+            items.append(it)
+            dec.stats[name] = dec.stats.get(name, 0) + 1
+            n_shape += 1
+            if twin is not None:
+                it["inline_line_comments"] = 1
+                it["twin"] = {"label": it["label"] + "(twin)", "src": twin.encode(), "origin": "shape", "slot": name}
+                items.append(it["twin"])
+    dims["shape_programs"] = len(shp)
+    dims["shape_programs_not_lexed"] = n_shape_bad
+    dims["shape_x_placeholder_programs"] = n_shape
     dims["hostile_text_per_placeholder_programs"] = n_h
     dims["hostile_text_condition_template_programs"] = n_hc
     dims["hostile_text_classes"] = body_stats
@@ -589,6 +613,9 @@ def plan_pairs(ctx, items, n_random):
             confs += COND_CONFS
         elif o == "scale":
             confs += SCALE_CONFS
+        elif o == "shape":
+            alt = (SLOT_CONFS[1:] + COND_CONFS[1:])
+            confs += [("default", {}), alt[len(pairs) % len(alt)]]
         elif o == "literal":
             confs += LITERAL_CONFS
         elif o in ("repo", "focus", "corpus"):
